@@ -304,3 +304,12 @@ Theorem C01_builder2_nonlocal_example : croot_ok ex5_prog = true /\ wt_prog2 ex5
   existsb (fun r => ecode_eqb (classify ex5_tys g (redges g) r) EOk && negb (is_static (r_kind r))) (redges g) = true.
 Proof. exact ex5_nonlocal. Qed.
 Print Assumptions C01_builder2_nonlocal_example.
+
+(* Rule 10 (acyclic regions) is NOT claimed for the extended language, and cannot be without a liveness premise on
+   wires: a program that uses, inside a case of a Conditional under construction, the dead wire of a previously inserted
+   program (it names the node index of the Conditional in the enclosing Hugr) runs without any builder call raising
+   and its document has a cycle.  wt_prog2 rejects it; the program contains no add_state_order. *)
+Theorem C01_dead_wire_cycle_refuted : croot_ok ex6_prog = true /\ wt_prog2 ex6_tys ex6_prog = false /\
+  exists g, run2 ex6_tys ex6_prog = Ok g /\ r_acyclic g = false.
+Proof. exact ex6_dead_wire_cycle. Qed.
+Print Assumptions C01_dead_wire_cycle_refuted.
